@@ -71,7 +71,21 @@ func (rm *RegistrationManager) HandleRegUpdates(ctx context.Context, regChan <-c
 	// distribute messages to workers. When workers are unavailable messages are
 	// added into channel buffer until full, then dropped.
 distrLoop:
-	for msg := range regChan {
+	for {
+		// wait for the next message or for cancellation: ranging over regChan alone would only
+		// notice a cancelled context once another message arrives.
+		var msg interface{}
+		var ok bool
+		select {
+		case <-ctx.Done():
+			logger.Infof("closing all ingest threads")
+			break distrLoop
+		case msg, ok = <-regChan:
+			if !ok {
+				break distrLoop
+			}
+		}
+
 		rm.addIngestMessage()
 		select {
 		case <-ctx.Done():
